@@ -1,38 +1,63 @@
 import GridVerif.Model.Proto
-import GridVerif.Model.Bisect
-import GridVerif.Gen.AngularTables
+import GridVerif.Model.AngularPy
+import GridVerif.Gen.AngularLogic
 
+/-
+  Driver of C12: every op runs the *generated* decision logic (`Gen/AngularLogic.lean`), the hand
+  model `Model/Bisect.lean` only supplies the primitives (`bisect_left` loop, dict lookup, max).
+  Scalar arguments travel as `none`, `other` (neither None nor an `int | np.integer`) or a decimal
+  integer (negative allowed).
+-/
 namespace GridVerif.Driver.C12
-open GridVerif.Bisect GridVerif.Proto GridVerif.Gen.Angular
+open GridVerif.AngularPy GridVerif.Proto GridVerif.Gen.AngularLogic
 
-def tablesOf : String → Option (List (Nat × Nat) × List (Nat × Nat))
-  | "lebedev" => some (lebedevDegrees, lebedevNPoints)
-  | "spherical" => some (sphericalDegrees, sphericalNPoints)
-  | "maxdet" => some (maxdetDegrees, maxdetNPoints)
-  | "ahrens_beylkin" => some (ahrensDegrees, ahrensNPoints)
-  | _ => none
+def pVal : String → Option Val
+  | "none" => some .none
+  | "other" => some .other
+  | s => (pInt s).map Val.int
 
-def showOut : Out → String
-  | .ok d s => s!"ok {d} {s}"
-  | .valueError => "value-error"
-  | .indexError => "index-error"
+def sVal : Val → String
+  | .none => "None"
+  | .other => "other"
+  | .int i => toString i
+
+def showPair : Py (Val × Val) → String
+  | .ok (d, s) => s!"ok {sVal d} {sVal s}"
+  | .error e => e.tag
 
 def handle : List String → Option String
   | ["C12.resolve", m, "deg", n] => do
-    let (dg, np) ← tablesOf m
     let n ← pNat n
-    pure (showOut (getDegreeAndSize dg np (some n) none))
+    pure (showPair (getDegreeAndSize (.int n) .none m))
   | ["C12.resolve", m, "size", n] => do
-    let (dg, np) ← tablesOf m
     let n ← pNat n
-    pure (showOut (getDegreeAndSize dg np none (some n)))
+    pure (showPair (getDegreeAndSize .none (.int n) m))
+  | ["C12.gds", m, a, b] => do
+    let a ← pVal a
+    let b ← pVal b
+    pure (showPair (getDegreeAndSize a b m))
+  | ["C12.load", m, a, b] => do
+    let a ← pVal a
+    let b ← pVal b
+    match loadPrecomputedAngularGrid a b m with
+    | .ok (pkg, file) => pure s!"ok {pkg} {file}"
+    | .error e => pure e.tag
+  | ["C12.init", m, a, b] => do
+    let a ← pVal a
+    let b ← pVal b
+    match initSelect a b m with
+    | .ok (d, s, c, k, pkg, file) => pure s!"ok {sVal d} {sVal s} {c} {sVal k} {pkg} {file}"
+    | .error e => pure e.tag
+  | ["C12.init0"] =>
+    match initDefault with
+    | .ok (d, s, c, k, pkg, file) => pure s!"ok {sVal d} {sVal s} {c} {sVal k} {pkg} {file}"
+    | .error e => pure e.tag
   | "C12.convert" :: m :: rest => do
-    let (_, np) ← tablesOf m
-    let (xs, tl) ← pVec pNat rest
+    let (xs, tl) ← pVec pInt rest
     if tl ≠ [] then none else
-    match convertSizes np xs with
-    | some ds => pure ("ok " ++ sNats ds)
-    | none => pure "value-error"
+    match convertAngularSizesToDegrees xs m with
+    | .ok ds => pure ("ok " ++ sInts ds)
+    | .error e => pure e.tag
   | _ => none
 
 end GridVerif.Driver.C12
